@@ -455,6 +455,15 @@ def cloning(ctx: Ctx, rule: str) -> None:
     ctx.record(rule + "s", "PROV", PCB, "clone: get_state<obj> = that parent's set_state; own set_state renamed '<state>.<parent state>'; name/shortname carry the parent state",
                okp, {k: defs.get(k) for k in ("parent_state", "child.params['get_state' + state_suffixes]", "child.params['set_state' + state_suffixes]")},
                "" if okp else "the branch-specific state naming of clones changed")
+    # the clone itself is built from its SOURCE (recipe, net/objects, prefix), not from the branch root or the parent
+    sets = [c for c in calls_in(loop) if call_name(c) == "set_objects_from_net"]
+    regen = [c for c in calls_in(loop) if call_name(c) == "regenerate_params" and ast.unparse(c.func.value) == "child"]
+    okc = (defs.get("clone_config") == ["clone_source.recipe.get_copy()"] and sorted(defs.get("child", [])) == ["TestNode(clone_name, clone_config)", "old_clone"]
+           and len(sets) == 1 and ast.unparse(sets[0]) == "child.set_objects_from_net(clone_source.objects[0])" and len(regen) == 1
+           and defs.get("clone_name") == ["clone_source.prefix + 'd' + str(i) if i > 0 else clone_source.prefix"])
+    ctx.record(rule + "c", "PROV", PCB, "a clone is built from its source: the source's recipe copy, the source's net and objects, the source's prefix (+'d<i>' for the further parents)", okc,
+               {"clone_config": defs.get("clone_config"), "objects": [ast.unparse(c) for c in sets]},
+               "" if okc else "clones are no longer built from their own clone source (recipe / net and objects / prefix): clones of dependants get foreign objects or names")
     sfx = [s for s in ast.walk(loop) if isinstance(s, (ast.Assign, ast.AugAssign)) and ast.unparse(s.targets[0] if isinstance(s, ast.Assign) else s.target) == "state_suffixes"]
     oks = len(sfx) == 2 and ast.unparse(sfx[0].value) == f"f'_{{{objp}.key}}_{{{objp}.suffix}}'" and \
         ast.unparse(sfx[1].value) == f"f'_{{{objp}.composites[0].suffix}}' if {objp}.key == 'images' else ''"
